@@ -37,6 +37,10 @@ type e2eScript struct {
 	pre    []int           // keep-alive newlines in front of each command
 	// shard slot range of the sync node (-1,-1: not a cluster shard): the checkpoint key must hash inside it (C15)
 	slotL, slotR int
+	// resume-continue only: the continued stream does not begin with a SELECT (the source has no reason to send one)
+	noLeadSelect bool
+	inline       []bool // PING sent in inline form ("PING\r\n")
+	rdbSplit     int    // the RDB of the full phase arrives in two pieces, split at this offset (0: one piece)
 }
 
 func (s e2eScript) String() string {
@@ -47,6 +51,9 @@ func (s e2eScript) String() string {
 			a = append(a, string(x))
 		}
 		p := strings.Join(a, " ") + fmt.Sprintf("+%v", s.gaps[i])
+		if i < len(s.inline) && s.inline[i] {
+			p = "inline:" + p
+		}
 		if i < len(s.pre) && s.pre[i] > 0 {
 			p = fmt.Sprintf("%dxLF ", s.pre[i]) + p
 		}
@@ -55,7 +62,14 @@ func (s e2eScript) String() string {
 		}
 		parts = append(parts, p)
 	}
-	return fmt.Sprintf("mode=%s start=%d [%s]", s.mode, s.start, strings.Join(parts, " ; "))
+	extra := ""
+	if s.mode == "resume-continue" && s.noLeadSelect {
+		extra += " continued-stream-without-its-first-SELECT"
+	}
+	if s.rdbSplit > 0 && s.mode != "resume-continue" {
+		extra += fmt.Sprintf(" rdb-split@%d", s.rdbSplit)
+	}
+	return fmt.Sprintf("mode=%s%s start=%d [%s]", s.mode, extra, s.start, strings.Join(parts, " ; "))
 }
 
 func drawE2E(t *rapid.T) e2eScript {
@@ -88,13 +102,33 @@ func drawE2E(t *rapid.T) e2eScript {
 	if rapid.Bool().Draw(t, "drop") {
 		s.dropAt = rapid.IntRange(1, len(s.cmds)-2).Draw(t, "dropAt")
 	}
-	for range s.cmds {
+	for i := range s.cmds {
 		s.pre = append(s.pre, rapid.SampledFrom([]int{0, 0, 0, 1, 2}).Draw(t, "keepalive"))
+		s.inline = append(s.inline, string(s.cmds[i][0]) == "ping" && rapid.IntRange(0, 2).Draw(t, "inline") == 0)
 	}
+	s.noLeadSelect = rapid.Bool().Draw(t, "noLeadSelect")
+	s.rdbSplit = rapid.SampledFrom([]int{0, 0, 1, 9, 15, 20}).Draw(t, "rdbSplit")
 	return s
 }
 
 func runE2E(s e2eScript, id int, loader bool) (sig, msg string) {
+	firstDB, _ := strconv.Atoi(string(s.cmds[0][1]))
+	if s.mode == "resume-continue" && s.noLeadSelect && len(s.cmds) > 3 {
+		// the stream simply continues in the database the checkpoint was taken in
+		s.cmds, s.gaps = s.cmds[1:], s.gaps[1:]
+		if len(s.pre) > 0 {
+			s.pre = s.pre[1:]
+		}
+		if len(s.inline) > 0 {
+			s.inline = s.inline[1:]
+		}
+		if s.dropAt >= 0 {
+			s.dropAt--
+			if s.dropAt < 1 {
+				s.dropAt = 1
+			}
+		}
+	}
 	// command stream with end positions
 	var stream bytes.Buffer
 	ends := make([]int, len(s.cmds))
@@ -102,7 +136,11 @@ func runE2E(s e2eScript, id int, loader bool) (sig, msg string) {
 		if i < len(s.pre) {
 			stream.Write(bytes.Repeat([]byte("\n"), s.pre[i])) // keep-alive newlines count as stream bytes
 		}
-		encodeCmd(&stream, c)
+		if i < len(s.inline) && s.inline[i] {
+			stream.WriteString("PING\r\n")
+		} else {
+			encodeCmd(&stream, c)
+		}
 		ends[i] = stream.Len()
 	}
 	data := stream.Bytes()
@@ -118,7 +156,13 @@ func runE2E(s e2eScript, id int, loader bool) (sig, msg string) {
 	if s.mode == "resume-continue" {
 		steps = append(steps, fsrc.Step{Send: []byte("+CONTINUE\r\n")})
 	} else {
-		steps = append(steps, fsrc.Step{Send: []byte(fmt.Sprintf("+FULLRESYNC %s %d\r\n$%d\r\n", c08RunID, s.start, len(rdb)))}, fsrc.Step{Send: rdb})
+		steps = append(steps, fsrc.Step{Send: []byte(fmt.Sprintf("+FULLRESYNC %s %d\r\n$%d\r\n", c08RunID, s.start, len(rdb)))})
+		if s.rdbSplit > 0 && s.rdbSplit < len(rdb) {
+			// short reads during the RDB transfer: what is still missing of the RDB must not be taken for stream bytes
+			steps = append(steps, fsrc.Step{Send: rdb[:s.rdbSplit], Sleep: 60 * time.Millisecond}, fsrc.Step{Send: rdb[s.rdbSplit:]})
+		} else {
+			steps = append(steps, fsrc.Step{Send: rdb})
+		}
 	}
 	prev := 0
 	sentBeforeDrop := len(data)
@@ -172,7 +216,6 @@ func runE2E(s e2eScript, id int, loader bool) (sig, msg string) {
 	}
 	tgt.Register(gen.Payload(gen.TString, val, gen.DumpVersion), gen.Value{Kind: "string", Str: []byte("v")})
 	// a checkpoint left behind by an earlier run (resume modes)
-	firstDB, _ := strconv.Atoi(string(s.cmds[0][1]))
 	oldRun := c08RunID
 	oldOffset := s.start
 	if s.mode == "resume-fullresync" {
@@ -282,6 +325,20 @@ func runE2E(s e2eScript, id int, loader bool) (sig, msg string) {
 	// the newest checkpoint must carry the run id of the source that produced these offsets
 	if ck := readCheckpointFor(tgt, "redis-shake-checkpoint", src.Addr()); ck.found && len(want) > 0 && (ck.runid != c08RunID || !ck.hasVer) {
 		return "e2e:checkpoint-runid", fmt.Sprintf("newest checkpoint (offset %d, db %d) carries run id %q (version present: %v); the offsets were produced under run id %q", ck.offset, ck.db, ck.runid, ck.hasVer, c08RunID)
+	}
+	// every database this run stored an offset in also holds the run id and the version (a restart reading that database
+	// as the newest one must not be told "unknown run id")
+	for _, cm := range log {
+		if cm.Name == "hset" && len(cm.Argv) == 4 && strings.HasSuffix(string(cm.Argv[2]), "-offset") {
+			if e := tgt.Get(cm.DB, "redis-shake-checkpoint"); e != nil && e.Kind == "hash" {
+				if rid, ok := e.Hash[src.Addr()+"-runid"]; !ok || rid != c08RunID {
+					return "e2e:checkpoint-runid", fmt.Sprintf("this run stored a checkpoint offset in db %d, but the checkpoint there carries run id %q (present: %v); the offsets were produced under run id %q", cm.DB, rid, ok, c08RunID)
+				}
+				if _, ok := e.Hash[src.Addr()+"-version"]; !ok {
+					return "e2e:checkpoint-runid", fmt.Sprintf("this run stored a checkpoint offset in db %d without a version field", cm.DB)
+				}
+			}
+		}
 	}
 	// every stored checkpoint offset == start + end position of the last source command of its group
 	valid := map[int64]int{s.start: -1} // a resumed run announces its start db with the start offset itself
@@ -426,8 +483,14 @@ func e2eBatch(t *rapid.T, prop string) {
 	scripts := make([]e2eScript, k)
 	for i := range scripts {
 		scripts[i] = drawE2E(t)
-		if prop == "C14" && scripts[i].mode == "fresh" {
-			scripts[i].mode = "resume-fullresync"
+		if prop == "C14" {
+			// only resumed runs, half of them continued streams that do not begin with a SELECT
+			if scripts[i].mode == "fresh" {
+				scripts[i].mode = "resume-fullresync"
+			}
+			if i%2 == 1 {
+				scripts[i].mode, scripts[i].noLeadSelect = "resume-continue", true
+			}
 		}
 		if prop == "C04" && scripts[i].mode == "fresh" && i%2 == 0 {
 			scripts[i].mode = "resume-continue"
